@@ -25,6 +25,7 @@ Verdict0(e, i) ==
       [] e.e = "ScUn" -> JudgeScUn(e, i)
       [] e.e = "ScCmp" -> JudgeScCmp(e, i)
       [] e.e = "ScIdent" -> JudgeScIdent(e, i)
+      [] e.e = "ScQuot" -> JudgeScQuot(e, i)
       [] e.e = "ScConv" -> JudgeScConv(e, i)
       [] e.e = "ScRoundTrip" -> JudgeScRoundTrip(e, i)
       [] e.e = "ElBin" -> JudgeElBin(e, i)
